@@ -334,6 +334,7 @@ _Dereification = Dict[
 
 def _dereify_agenda(g: Graph, model: Model) -> _Dereification:
     alns = alignments(g)
+    variables = g.variables()
     agenda: _Dereification = {}
     fixed: Set[Target] = set([g.top])
     inst: Dict[Variable, BasicTriple] = {}
@@ -366,6 +367,8 @@ def _dereify_agenda(g: Graph, model: Model) -> _Dereification:
             except ModelError:
                 pass
             else:
+                if dereified[0] not in variables:
+                    continue  # the source of a triple must be a node
                 # migrate epidata
                 epidata: List[Epidatum] = []
                 if instance in alns:
